@@ -289,6 +289,15 @@ def run_property(mod, tier, seed, replay=None):
             extra = [a for a in axs if a not in ALLOWED_AXIOMS]
             if extra:
                 broken.append(f"axiom-audit: {th} uses {extra}")
+    # independent re-check of the compiled property module (thorough tier)
+    recheck = None
+    if tier == "thorough" and ok_build and not dev_nolean:
+        props_mods = [t for t in lean_targets if ".Props." in t]
+        rc, out, dt = sh(["lake", "env", "leanchecker"] + props_mods, cwd=LEAN_DIR, timeout=3000)
+        log.append(f"[leanchecker {' '.join(props_mods)}] rc={rc} {dt:.1f}s\n{out[-2000:]}")
+        recheck = (rc == 0)
+        if rc != 0:
+            broken.append("leanchecker: " + (out.strip().splitlines() or ["failed"])[-1][:200])
     obligations = len(getattr(mod, "THEOREMS", [])) or len(theorems)
     declared = getattr(mod, "THEOREMS", None)
     if declared is not None and ok_build:
@@ -479,6 +488,7 @@ def run_property(mod, tier, seed, replay=None):
             "spec oracle in /verif/props/%s.py (plain Python integers)" % pid.lower(),
         ] + list(getattr(mod, "UNMODELLED", [])),
         "theorems": {k: v for k, v in sorted(theorems.items())},
+        "leanchecker_recheck": recheck,
         "hypotheses_of_theorems": list(getattr(mod, "HYPOTHESES", [])),
         "modelled": list(getattr(mod, "MODELLED", [])),
         "translated_from_source": [g for g, ok, _ in gen_res if ok],
